@@ -341,6 +341,26 @@ func runCheck(prop, tier string) int {
 	wg.Wait()
 
 	exit := 0
+	// determinism probe: the same (seed, run) executed in fresh processes at
+	// different GOMAXPROCS must give byte-identical results (steps, schedule
+	// and state signatures, counters). A difference is a harness defect: exit 2.
+	if cfg.Engine != "httpsim" {
+		n := 4
+		if tier == "thorough" {
+			n = 30
+		}
+		det := determinismProbe(b, env, cfg, prop, tier, seed, n)
+		a.counters["determinism_runs_compared"] = int64(det.compared)
+		a.counters["determinism_mismatches"] = int64(len(det.diffs))
+		for i, d := range det.diffs {
+			if i < 3 {
+				fmt.Fprintf(os.Stderr, "verif: nondeterministic replay: %s\n", d)
+			}
+		}
+		if len(det.diffs) > 0 {
+			exit = 2
+		}
+	}
 	// infrastructure trouble first
 	if len(a.infra) > 0 {
 		for i, m := range a.infra {
@@ -753,4 +773,83 @@ func runReplay(path string) int {
 		return 1
 	}
 	return 2
+}
+
+type detResult struct {
+	compared int
+	diffs    []string
+}
+
+// determinismProbe re-executes n run indices in separate processes at
+// GOMAXPROCS 1, 4 and 16 and compares everything but wall-clock fields.
+func determinismProbe(b *build, env []string, cfg checkCfg, prop, tier string, seed uint64, n int) detResult {
+	var res detResult
+	type job struct{ run uint64 }
+	var mu sync.Mutex
+	var wg sync.WaitGroup
+	sem := make(chan struct{}, runtime.NumCPU())
+	for i := 0; i < n; i++ {
+		wg.Add(1)
+		go func(run uint64) {
+			defer wg.Done()
+			var outs []string
+			for _, procs := range []string{"1", "4", "16"} {
+				sem <- struct{}{}
+				e := append(append([]string{}, env...), "GOMAXPROCS="+procs)
+				out, _ := runTimeout(4*time.Minute, b.scratch, e, b.worker, "-engine", cfg.Engine, "-prop", prop, "-tier", tier, "-seed", fmt.Sprint(seed), "-from", fmt.Sprint(run), "-runs", "1", "-scratch", filepath.Join(b.scratch, fmt.Sprintf("det%d-%s", run, procs)))
+				<-sem
+				norm := ""
+				for _, l := range strings.Split(out, "\n") {
+					if !strings.HasPrefix(l, "{\"seed\"") {
+						continue
+					}
+					var m map[string]any
+					if json.Unmarshal([]byte(l), &m) != nil {
+						continue
+					}
+					delete(m, "wall_ms")
+					delete(m, "log")
+					nb, _ := json.Marshal(m)
+					norm = string(nb)
+				}
+				outs = append(outs, norm)
+			}
+			mu.Lock()
+			defer mu.Unlock()
+			res.compared++
+			for k := 1; k < len(outs); k++ {
+				if outs[k] != outs[0] {
+					res.diffs = append(res.diffs, fmt.Sprintf("run %d differs between GOMAXPROCS=1 and another setting: %s", run, firstDifference(outs[0], outs[k])))
+					break
+				}
+			}
+		}(uint64(i) * 7)
+	}
+	wg.Wait()
+	return res
+}
+
+func firstDifference(a, b string) string {
+	n := len(a)
+	if len(b) < n {
+		n = len(b)
+	}
+	for i := 0; i < n; i++ {
+		if a[i] != b[i] {
+			lo := i - 60
+			if lo < 0 {
+				lo = 0
+			}
+			hi := i + 60
+			ha, hb := hi, hi
+			if ha > len(a) {
+				ha = len(a)
+			}
+			if hb > len(b) {
+				hb = len(b)
+			}
+			return fmt.Sprintf("...%s... vs ...%s...", a[lo:ha], b[lo:hb])
+		}
+	}
+	return fmt.Sprintf("lengths %d vs %d", len(a), len(b))
 }
